@@ -351,8 +351,24 @@ def run(ck, fx, cg, tier):
                 return t
             idx = ("app", "field", (("var", "self"), ("lit", "0")))
             bad = []
+            # a path for "the stored Option is None" may write nothing when the loader never stores None: what
+            # `from_bytes` returns has `Some(..)` in that field on every successful path (the case is excluded by
+            # construction — unlike a case distinction on the index's *value*)
+            loader_some = False
+            lb = fx.body("<bytecode::program::Entry as bytecode::serializable::Serializable>::from_bytes")
+            if lb:
+                try:
+                    from ..symex import Executor as _Ex, Client as _Cl, State as _St
+                    outs = [o for st_, o in _Ex(fx, _Cl()).run_body(lb, [("var", "input")], _St()) if o[0] in ("val", "ret")]
+                    loader_some = bool(outs) and all(isinstance(o[1], tuple) and o[1][0] == "ctor" and o[1][3] and isinstance(o[1][3][0][1], tuple) and o[1][3][0][1][0] == "some" for o in outs)
+                except Exception:   # noqa
+                    loader_some = False
+            NONE_CASE = {(("app", "is_some", (idx,)), False), (("app", "is_none", (idx,)), True),
+                         (("app", "is_variant", (idx, ("lit", "None"))), True), (("app", "is_variant", (idx, ("lit", "Some"))), False)}
             for p_ in eps:
                 segs = p_["segs"]
+                if not segs and loader_some and any((c, v == ("lit", True)) in NONE_CASE for c, v in p_["conds"]):
+                    continue
                 if not (len(segs) == 1 and segs[0][0] == "arg" and _strip(segs[0][1]) == idx and segs[0][3] in ("", None)):
                     from ..symdbg import fmt_term as _ft
                     bad.append("when %s the entry renders as %s" % (" and ".join("%s=%s" % (_ft(c)[:70], _ft(v)) for c, v in p_["conds"]) or "always", [x[:2] if x[0] == "lit" else x[0] for x in segs] or "nothing"))
@@ -404,7 +420,8 @@ def _loader(ck, fx, cg):
     except Exception as e:  # noqa
         ck.ob("R17.loader", "reader obligations", False, "", "C04's reader rules could not be evaluated: %s: %s" % (type(e).__name__, e))
         return
-    rd = [o for o in sub.obligs if o["rule"].startswith("R4.reader")]
+    # (R4.source: the bytes the loader is given are the file's bytes — nobody else reads, peeks or skips on that reader)
+    rd = [o for o in sub.obligs if o["rule"].startswith("R4.reader") or o["rule"] == "R4.source"]
     bad = [o for o in rd if not o["ok"] and ("C04", "%s|%s" % (o["rule"], o["key"])) not in known]
     ck.ob("R17.loader", "the listed program is the program in the file", not bad, bad[0]["where"] if bad else "",
           "%d reader obligation(s) hold (every constant / global / instruction is loaded at its file position)" % len(rd) if not bad else
